@@ -112,11 +112,13 @@ Proof.
   exact (check_event_granted ep cl l (proj1 He) (proj1 Hc) (proj1 Hl)).
 Qed.
 
-Lemma event_statuses_spec (paths : list gpath) :
-  event_statuses fabs who nd paths = spec_event_statuses nd fabs who paths.
+(** what the code answers: the specified statuses without the UnsupportedEvent ones *)
+Lemma event_statuses_code (paths : list gpath) :
+  event_statuses fabs who nd paths
+  = filter (fun o => negb (is_unsupported_event_status o)) (spec_event_statuses nd fabs who paths).
 Proof.
   unfold spec_event_statuses. induction paths as [|p rest IH]; [reflexivity|].
-  cbn [event_statuses flat_map]. rewrite IH. f_equal.
+  cbn [event_statuses flat_map]. rewrite filter_app, IH. f_equal.
   destruct p as [[e|] [c|] [id|]]; cbn [is_wildcard p_ep p_cl p_leaf is_some andb negb]; try reflexivity.
   rewrite validate_concrete. unfold event_path_status.
   destruct (find (fun x => ep_id x =? e) nd) as [ep|]; [|reflexivity].
@@ -125,15 +127,54 @@ Proof.
   destruct (event_granted fabs who (ep, cl, l)); reflexivity.
 Qed.
 
-Theorem read_events_exact (paths : list gpath) (queue : list qevent) :
-  read_events fabs who nd paths queue = spec_read_events nd fabs who paths queue.
+(** outside the known class the specification has no UnsupportedEvent entry *)
+Lemma spec_statuses_no_ue (paths : list gpath) :
+  known_absent_event_no_status nd paths = false ->
+  filter (fun o => negb (is_unsupported_event_status o)) (spec_event_statuses nd fabs who paths)
+  = spec_event_statuses nd fabs who paths.
 Proof.
-  unfold read_events, spec_read_events, permitted_events. rewrite event_statuses_spec.
+  unfold spec_event_statuses, known_absent_event_no_status.
+  induction paths as [|p rest IH]; intros Hk; [reflexivity|].
+  cbn [existsb] in Hk. apply orb_false_iff in Hk. destruct Hk as [Hp Hr].
+  cbn [flat_map]. rewrite filter_app, (IH Hr). f_equal.
+  unfold absent_event_path in Hp.
+  destruct p as [[e|] [c|] [id|]]; cbn [p_ep p_cl p_leaf] in *; try reflexivity.
+  unfold event_path_status.
+  destruct (find (fun x => ep_id x =? e) nd) as [ep|]; [|reflexivity].
+  destruct (find (fun x => c_id x =? c) (ep_clusters ep)) as [cl|]; [|reflexivity].
+  destruct (find (fun l => l_id l =? id) (filter l_on (c_events cl))) as [l|]; [|discriminate].
+  destruct (event_granted fabs who (ep, cl, l)); reflexivity.
+Qed.
+
+Lemma event_out_not_status (l : list qevent) :
+  filter (fun o => negb (is_unsupported_event_status o)) (map event_out l) = map event_out l.
+Proof. induction l as [|ev l IH]; [reflexivity|]. cbn [map filter event_out is_unsupported_event_status negb]. rewrite IH. reflexivity. Qed.
+
+(** for every request: the code's answer is the specified one without its UnsupportedEvent entries *)
+Theorem read_events_code (paths : list gpath) (queue : list qevent) :
+  read_events fabs who nd paths queue = strip_known (spec_read_events nd fabs who paths queue).
+Proof.
+  unfold read_events, spec_read_events, strip_known, permitted_events.
+  rewrite filter_app, event_out_not_status, event_statuses_code.
   f_equal. f_equal. f_equal. apply filter_ext_in'. intros ev _. apply event_reported_spec.
 Qed.
 
+(** outside the known class the code's answer is exactly the specified one *)
+Theorem read_events_exact (paths : list gpath) (queue : list qevent) :
+  known_absent_event_no_status nd paths = false ->
+  read_events fabs who nd paths queue = spec_read_events nd fabs who paths queue.
+Proof.
+  intros Hk. rewrite read_events_code. unfold spec_read_events, strip_known.
+  rewrite filter_app, event_out_not_status, (spec_statuses_no_ue paths Hk). reflexivity.
+Qed.
+
+(** a subscription refuses such paths as a whole: no deviation there *)
 Theorem subscribe_events_exact (paths : list gpath) (queue : list qevent) :
-  subscribe_events fabs who nd paths queue = spec_subscribe_events nd fabs who paths queue.
+  subscribe_events fabs who nd paths queue
+  = match spec_subscribe_events nd fabs who paths queue with
+    | RespItems _ _ => read_events fabs who nd paths queue
+    | r => r
+    end.
 Proof.
   unfold subscribe_events, spec_subscribe_events. destruct paths as [|p0 rest]; [reflexivity|].
   set (paths := p0 :: rest).
@@ -145,8 +186,29 @@ Proof.
     destruct p as [[e|] [c|] [id|]]; cbn [is_wildcard p_ep p_cl p_leaf is_some andb negb]; try reflexivity.
     pose proof (validate_own_path (mkQEvent e c id None)) as Hv. unfold qe_path in Hv. cbn [qe_ep qe_cl qe_id] in Hv.
     rewrite <- Hv. destruct (validate_event_path fabs who nd (mkPath (Some e) (Some c) (Some id))); reflexivity. }
-  rewrite H. destruct (forallb (concrete_event_path_ok nd fabs who) paths); cbn [negb];
-    [apply read_events_exact|reflexivity].
+  rewrite H. destruct (forallb (concrete_event_path_ok nd fabs who) paths); reflexivity.
+Qed.
+
+(** an accepted subscription has no path of the known class *)
+Lemma subscription_ok_not_known (paths : list gpath) :
+  forallb (concrete_event_path_ok nd fabs who) paths = true ->
+  known_absent_event_no_status nd paths = false.
+Proof.
+  unfold known_absent_event_no_status. induction paths as [|p l IH]; intros H; [reflexivity|].
+  cbn [forallb existsb] in *. apply andb_true_iff in H. destruct H as [Hp Hl]. rewrite (IH Hl), orb_false_r.
+  unfold concrete_event_path_ok, event_source, absent_event_path in *.
+  destruct p as [[e|] [c|] [id|]]; cbn [p_ep p_cl p_leaf qe_ep qe_cl qe_id] in *; try reflexivity.
+  destruct (find (fun x => ep_id x =? e) nd) as [ep|]; [|reflexivity].
+  destruct (find (fun x => c_id x =? c) (ep_clusters ep)) as [cl|]; [|reflexivity].
+  destruct (find (fun l0 => l_id l0 =? id) (filter l_on (c_events cl))); [reflexivity|discriminate].
+Qed.
+
+Theorem subscribe_events_spec (paths : list gpath) (queue : list qevent) :
+  subscribe_events fabs who nd paths queue = spec_subscribe_events nd fabs who paths queue.
+Proof.
+  rewrite subscribe_events_exact. unfold spec_subscribe_events. destruct paths as [|p0 rest]; [reflexivity|].
+  destruct (forallb (concrete_event_path_ok nd fabs who) (p0 :: rest)) eqn:Hf; [|reflexivity].
+  apply read_events_exact. apply subscription_ok_not_known. exact Hf.
 Qed.
 
 (** a wildcard path alone: exactly the permitted events, nothing else, no status *)
@@ -155,12 +217,16 @@ Theorem event_wildcard_exact (p : gpath) (queue : list qevent) :
   read_events fabs who nd [p] queue
   = RespItems (map event_out (permitted_events nd fabs who [p] queue)) [].
 Proof.
-  intros W. rewrite read_events_exact. unfold spec_read_events, spec_event_statuses. cbn [flat_map].
-  destruct p as [[e|] [c|] [id|]]; try reflexivity. discriminate.
+  intros W. rewrite read_events_exact.
+  - unfold spec_read_events, spec_event_statuses. cbn [flat_map].
+    destruct p as [[e|] [c|] [id|]]; try reflexivity. discriminate.
+  - unfold known_absent_event_no_status, absent_event_path. cbn [existsb].
+    destruct p as [[e|] [c|] [id|]]; try reflexivity. discriminate.
 Qed.
 
 (** a concrete path: its status from the decision table (if any), then its permitted events *)
 Theorem event_concrete_status (e c id : N) (queue : list qevent) :
+  absent_event_path nd (mkPath (Some e) (Some c) (Some id)) = false ->
   read_events fabs who nd [mkPath (Some e) (Some c) (Some id)] queue
   = RespItems ((match event_path_status nd fabs who e c id with
                 | Some s => [OStatus (mkPath (Some e) (Some c) (Some id)) None s]
@@ -168,8 +234,29 @@ Theorem event_concrete_status (e c id : N) (queue : list qevent) :
                 end)
                ++ map event_out (permitted_events nd fabs who [mkPath (Some e) (Some c) (Some id)] queue)) [].
 Proof.
-  rewrite read_events_exact. unfold spec_read_events, spec_event_statuses. cbn [flat_map p_ep p_cl p_leaf].
-  rewrite app_nil_r. reflexivity.
+  intros Hk. rewrite read_events_exact.
+  - unfold spec_read_events, spec_event_statuses. cbn [flat_map p_ep p_cl p_leaf].
+    rewrite app_nil_r. reflexivity.
+  - unfold known_absent_event_no_status. cbn [existsb]. rewrite Hk. reflexivity.
+Qed.
+
+(** in the known class the concrete path gets no status where the property demands UnsupportedEvent *)
+Theorem event_absent_no_status (e c id : N) (queue : list qevent) :
+  absent_event_path nd (mkPath (Some e) (Some c) (Some id)) = true ->
+  event_path_status nd fabs who e c id = Some SUnsupportedEvent
+  /\ read_events fabs who nd [mkPath (Some e) (Some c) (Some id)] queue
+     = RespItems (map event_out (permitted_events nd fabs who [mkPath (Some e) (Some c) (Some id)] queue)) [].
+Proof.
+  intros Hk. unfold absent_event_path in Hk. cbn [p_ep p_cl p_leaf] in Hk.
+  assert (Hs : event_path_status nd fabs who e c id = Some SUnsupportedEvent).
+  { unfold event_path_status.
+    destruct (find (fun x => ep_id x =? e) nd) as [ep|]; [|discriminate].
+    destruct (find (fun x => c_id x =? c) (ep_clusters ep)) as [cl|]; [|discriminate].
+    destruct (find (fun l => l_id l =? id) (filter l_on (c_events cl))); [discriminate|reflexivity]. }
+  split; [exact Hs|].
+  rewrite read_events_code. unfold spec_read_events, spec_event_statuses, strip_known.
+  cbn [flat_map p_ep p_cl p_leaf]. rewrite Hs. cbn [app filter is_unsupported_event_status negb].
+  rewrite event_out_not_status. reflexivity.
 Qed.
 
 End Events.
@@ -223,3 +310,40 @@ Theorem holds_events_sound (subscribe : bool) (who : accessor) (nd : node) (fabs
 Proof.
   intros Hn Hf. unfold holds_events. rewrite Hn, Hf. cbn [andb]. apply imresp_eqb_eq.
 Qed.
+
+(** the classifier of the known finding accepts an answer only if the request is in the class
+    and the answer differs from the specified one by the missing UnsupportedEvent entries only *)
+Theorem holds_events_known_sound (subscribe : bool) (who : accessor) (nd : node) (fabs : list fabric)
+  (paths : list gpath) (queue : list qevent) (resp : imresp) :
+  holds_events_known subscribe who nd fabs paths queue resp = true ->
+  subscribe = false /\ known_absent_event_no_status nd paths = true
+  /\ resp = strip_known (spec_read_events nd fabs who paths queue)
+  /\ resp = read_events fabs who nd paths queue.
+Proof.
+  unfold holds_events_known. intros H.
+  apply andb_true_iff in H. destruct H as [H Heq]. apply andb_true_iff in H. destruct H as [H Hf].
+  apply andb_true_iff in H. destruct H as [H Hn]. apply andb_true_iff in H. destruct H as [Hs Hk].
+  apply imresp_eqb_eq in Heq. destruct subscribe; [discriminate|].
+  split; [reflexivity|]. split; [exact Hk|]. split; [exact Heq|].
+  rewrite (read_events_code fabs who nd Hf Hn). exact Heq.
+Qed.
+
+(** the class is inhabited: a read of event 9 of a cluster that has events 0 and 1 only *)
+Definition known_witness_node : node :=
+  [mkEndpoint 0 [] [mkCluster 6 [] [] [mkLeaf 0 17 true; mkLeaf 1 17 true]]].
+Definition known_witness_fabs : list fabric := [mkFabric 1 [mkEntry 15 ACase None None (Some 1)] []].
+Definition known_witness_who : accessor := for_session (SCase 1 [0; 0; 0]) (Some 112233) false.
+Definition known_witness_paths : list gpath := [mkPath (Some 0) (Some 6) (Some 9); mkPath (Some 0) (Some 6) (Some 0)].
+Definition known_witness_queue : list qevent := [mkQEvent 0 6 0 None].
+
+Theorem known_absent_event_inhabited :
+  wf_node_events known_witness_node = true /\ wf_fabrics known_witness_fabs = true
+  /\ known_absent_event_no_status known_witness_node known_witness_paths = true
+  /\ spec_read_events known_witness_node known_witness_fabs known_witness_who known_witness_paths known_witness_queue
+     = RespItems [OStatus (mkPath (Some 0) (Some 6) (Some 9)) None SUnsupportedEvent; OData 0 6 0 None] []
+  /\ read_events known_witness_fabs known_witness_who known_witness_node known_witness_paths known_witness_queue
+     = RespItems [OData 0 6 0 None] []
+  /\ holds_events false known_witness_who known_witness_node known_witness_fabs known_witness_paths known_witness_queue
+       (read_events known_witness_fabs known_witness_who known_witness_node known_witness_paths known_witness_queue)
+     = false.
+Proof. vm_compute. repeat split. Qed.
